@@ -94,6 +94,14 @@ def Exact(H, part, xi):
     return L.inter(L.inter(H, FalP(e, LCnd.len(e))), NfExcP(part, xi, LCnd.len(part)))
 
 
+# `AtLevel` is a marker that is true of everything: it only restricts the definitional axioms of
+# WREC / LREC to the contexts a function was entered with (no unfolding of the nested levels)
+AtLevelW = z3.Function("AtLevelW", L.WSet, L.Bool)
+AtLevelL = z3.Function("AtLevelL", L.WSet, L.WSet, L.Bool)
+_mk1, _mk2 = z3.Consts("_mk_1 _mk_2", L.WSet)
+L.TH.axiom([_mk1], AtLevelW(_mk1), AtLevelW(_mk1), "marker.W")
+L.TH.axiom([_mk1, _mk2], AtLevelL(_mk1, _mk2), AtLevelL(_mk1, _mk2), "marker.L")
+
 _wP = z3.Const("_w_P", LLCnd.sort)
 _wV, _wF, _wH = z3.Consts("_w_V _w_F _w_H", L.WSet)
 _wi, _wn = z3.Ints("_w_i _w_n")
@@ -110,23 +118,23 @@ def _next(xi):
     return z3.And(_wi > 0, _WREC(_wP, _wV, _wF, Exact(_wH, _part, xi), _wi - 1))
 
 
-WREC_AXIOMS = [L.Forall([_wP, _wV, _wF, _wH, _wi], [_me], z3.Implies(_me, ASA(_XV, _XF)), "def.WREC.elim.asa")]
+WREC_AXIOMS = [L.Forall([_wP, _wV, _wF, _wH, _wi], [_me, AtLevelW(_wH)], z3.Implies(_me, ASA(_XV, _XF)), "def.WREC.elim.asa")]
 WREC_AXIOMS.append(L.Forall(
     [_wP, _wV, _wF, _wH, _wi, _wxi, _wn],
-    [_me, FalP(enumC(_wxi), _wn)],
+    [_me, AtLevelW(_wH), FalP(enumC(_wxi), _wn)],
     z3.Implies(z3.And(_me, z3.IsMember(_wxi, _S)), _next(_wxi)),
     "def.WREC.elim.all",
 ))
 WREC_AXIOMS.append(L.Forall(
     [_wP, _wV, _wF, _wH, _wi, _wxi],
-    [_me, z3.IsMember(_wxi, _S)],
+    [_me, AtLevelW(_wH), z3.IsMember(_wxi, _S)],
     z3.Implies(z3.And(_me, z3.IsMember(_wxi, _S)), _next(_wxi)),
     "def.WREC.elim.all.member",
 ))
 _wit = witW(_wP, _wV, _wF, _wH, _wi)
 WREC_AXIOMS.append(L.Forall(
     [_wP, _wV, _wF, _wH, _wi],
-    [_me],
+    [_me, AtLevelW(_wH)],
     z3.Implies(z3.Not(_me), z3.Or(z3.Not(ASA(_XV, _XF)), z3.And(z3.IsMember(_wit, _S), z3.Not(_next(_wit))))),
     "def.WREC.intro",
 ))
@@ -179,7 +187,7 @@ Contract(
     "inference.system_w_z3:SystemWZ3._rec_inference",
     params={"self": WZ, "opt": TSolverT, "partition_index": TInt, "query": TCnd},
     returns=TBool,
-    requires=_idx_ok,
+    requires=lambda c: _idx_ok(c) + [AtLevelW(c.A(c.opt))],
     ensures=lambda c, r: [r.t == WREC(_Pz(c), c.query.t, c.old.A(c.old.opt), c.partition_index.t), c.A(c.opt) == c.old.A(c.old.opt)],
     raises={"TimeoutError": lambda c: z3.BoolVal(True)},
     modifies=["opt"],
@@ -199,17 +207,164 @@ Contract(
     properties=["C03", "C07", "C11"],
     note="refinement of the real recursion to WREC under the assumed contracts of get_all_xi_i / any_subset_of_all",
 )
+# ---------------------------------------------------------------------------
+# lexicographic recursion over minimum-cardinality falsification sets (DESIGN §5 C04)
+#   cv = MinCard(XV), cf = MinCard(XF)   (XV, XF as for System W, contexts Hv, Hf)
+#   LREC(P,V,F,Hv,Hf,i) = if XV = {} then False elif XF = {} then True elif cv < cf then True
+#                         elif cf < cv then False elif i <= 0 then False else Tie
+#   Tie  <=>  EXISTS xv in XV, |xv| = cv:  BA(xv)
+#   BA(xv) <=> FOR ALL xf in XF, |xf| = cf:  LREC(P,V,F, Exact(Hv,P[i],xv), Exact(Hf,P[i],xf), i-1)
+# ---------------------------------------------------------------------------
+cardC = _cardC
+MinCard = z3.Function("MinCard", Fam, L.Int)
+mcw = z3.Function("mcw", Fam, CSet)
+_X = z3.Const("_mc_X", Fam)
+_sx = z3.Const("_mc_s", CSet)
+LREC_AXIOMS = [
+    L.Forall([_X, _sx], [MinCard(_X), z3.IsMember(_sx, _X)], z3.Implies(z3.IsMember(_sx, _X), cardC(_sx) >= MinCard(_X)), "def.MinCard.lower"),
+    L.Forall([_X], [MinCard(_X)], z3.Implies(_X != z3.EmptySet(CSet), z3.And(z3.IsMember(mcw(_X), _X), cardC(mcw(_X)) == MinCard(_X))), "def.MinCard.attained"),
+]
+_lHv, _lHf = z3.Consts("_l_Hv _l_Hf", L.WSet)
+_lxv, _lxf = z3.Consts("_l_xv _l_xf", CSet)
+_lXV = MinFam(L.inter(_lHv, _wV), _part)
+_lXF = MinFam(L.inter(_lHf, _wF), _part)
+_cv, _cf = MinCard(_lXV), MinCard(_lXF)
+_lme = _LREC(_wP, _wV, _wF, _lHv, _lHf, _wi)
+Tie = z3.Function("Tie", LLCnd.sort, L.WSet, L.WSet, L.WSet, L.WSet, L.Int, L.Bool)
+BA = z3.Function("BA", LLCnd.sort, L.WSet, L.WSet, L.WSet, L.WSet, L.Int, CSet, L.Bool)
+lwit = z3.Function("lwit", LLCnd.sort, L.WSet, L.WSet, L.WSet, L.WSet, L.Int, CSet)
+bawit = z3.Function("bawit", LLCnd.sort, L.WSet, L.WSet, L.WSet, L.WSet, L.Int, CSet, CSet)
+_args = (_wP, _wV, _wF, _lHv, _lHf, _wi)
+_tie = Tie(*_args)
+
+
+def _nxt(xv, xf):
+    return _LREC(_wP, _wV, _wF, Exact(_lHv, _part, xv), Exact(_lHf, _part, xf), _wi - 1)
+
+
+LREC_AXIOMS += [
+    L.Forall(
+        list(_args),
+        [_lme, AtLevelL(_lHv, _lHf)],
+        _lme
+        == z3.If(
+            _lXV == z3.EmptySet(CSet),
+            False,
+            z3.If(_lXF == z3.EmptySet(CSet), True, z3.If(_cv < _cf, True, z3.If(_cf < _cv, False, z3.If(_wi <= 0, False, _tie)))),
+        ),
+        "def.LREC",
+    ),
+    L.Forall(
+        list(_args),
+        [_tie, AtLevelL(_lHv, _lHf)],
+        z3.Implies(_tie, z3.And(z3.IsMember(lwit(*_args), _lXV), cardC(lwit(*_args)) == _cv, BA(*_args, lwit(*_args)))),
+        "def.Tie.elim",
+    ),
+    L.Forall(
+        list(_args) + [_lxv],
+        [_tie, AtLevelL(_lHv, _lHf), z3.IsMember(_lxv, _lXV)],
+        z3.Implies(z3.And(z3.IsMember(_lxv, _lXV), cardC(_lxv) == _cv, BA(*_args, _lxv)), _tie),
+        "def.Tie.intro",
+    ),
+    L.Forall(
+        list(_args) + [_lxv, _lxf],
+        [BA(*_args, _lxv), AtLevelL(_lHv, _lHf), z3.IsMember(_lxf, _lXF)],
+        z3.Implies(z3.And(BA(*_args, _lxv), z3.IsMember(_lxf, _lXF), cardC(_lxf) == _cf), _nxt(_lxv, _lxf)),
+        "def.BA.elim",
+    ),
+    L.Forall(
+        list(_args) + [_lxv],
+        [BA(*_args, _lxv), AtLevelL(_lHv, _lHf)],
+        z3.Implies(
+            z3.Not(BA(*_args, _lxv)),
+            z3.And(
+                z3.IsMember(bawit(*_args, _lxv), _lXF),
+                cardC(bawit(*_args, _lxv)) == _cf,
+                z3.Not(_nxt(_lxv, bawit(*_args, _lxv))),
+            ),
+        ),
+        "def.BA.intro",
+    ),
+]
+
+Contract(
+    "inference.lex_inf_z3:LexInfZ3.get_all_xi_i",
+    params={"self": LZ, "opt": TSolverT, "part": TList(TCnd)},
+    returns=SSC,
+    ensures=lambda c, r: [r.t == MinFam(c.old.A(c.old.opt), c.part.t)],
+    modifies=["opt"],
+    raises={"TimeoutError": lambda c: z3.BoolVal(True)},
+    trusted=True,
+    note="ASSUMED, as SystemWZ3.get_all_xi_i (same code); bounded by module mcsz3",
+)
+
+LCS = L.list_theory(CSet)
+
+
+def _l_ctx(s, pre):
+    P, q, i = _Pz(s), s.query.t, s.partition_index.t
+    return (P, L.ver(q), L.fal(q), pre.A(pre.opt_v), pre.A(pre.opt_f), i)
+
+
+def _l_inv_outer(s, j, pre):
+    a = _l_ctx(s, pre)
+    lv = s._ex.loop_seq_term if False else None
+    k = z3.Int("_lo_k")
+    lst = s._st.env["__seq0"].t
+    return [
+        s.A(s.opt_v) == pre.A(pre.opt_v),
+        s.A(s.opt_f) == pre.A(pre.opt_f),
+        L.Forall([k], [LCS.at(lst, k)], z3.Implies(z3.And(0 <= k, k < j), z3.Not(BA(*a, LCS.at(lst, k)))), "no.earlier.candidate.beats.all"),
+    ]
+
+
+def _l_inv_inner(s, j, pre):
+    # `pre` is the state at the inner loop's entry: the optimizers are as at function entry
+    P, q, i = _Pz(s), s.query.t, s.partition_index.t
+    Hv, Hf = pre.A(pre.opt_v), pre.A(pre.opt_f)
+    k = z3.Int("_li_k")
+    lst = s._st.env["__seq1"].t
+    part = LLCnd.at(P, i)
+    return [
+        s.A(s.opt_v) == Hv,
+        s.A(s.opt_f) == Hf,
+        s.beats_all.t == True,
+        L.Forall(
+            [k],
+            [LCS.at(lst, k)],
+            z3.Implies(
+                z3.And(0 <= k, k < j),
+                _LREC(P, L.ver(q), L.fal(q), Exact(Hv, part, s.xi_i.t), Exact(Hf, part, LCS.at(lst, k)), i - 1),
+            ),
+            "beats.so.far",
+        ),
+    ]
+
+
 Contract(
     "inference.lex_inf_z3:LexInfZ3._rec_inference",
     params={"self": LZ, "opt_v": TSolverT, "opt_f": TSolverT, "partition_index": TInt, "query": TCnd},
     returns=TBool,
-    requires=_idx_ok,
+    requires=lambda c: _idx_ok(c) + [AtLevelL(c.A(c.opt_v), c.A(c.opt_f))],
     ensures=lambda c, r: [
-        r.t == LREC(_Pz(c), c.query.t, c.old.A(c.old.opt_v), c.old.A(c.old.opt_f), c.partition_index.t)
+        r.t == LREC(_Pz(c), c.query.t, c.old.A(c.old.opt_v), c.old.A(c.old.opt_f), c.partition_index.t),
+        c.A(c.opt_v) == c.old.A(c.old.opt_v),
+        c.A(c.opt_f) == c.old.A(c.old.opt_f),
     ],
     raises={"TimeoutError": lambda c: z3.BoolVal(True)},
-    trusted=True,
-    note="ASSUMED, as above (C04, C07)",
+    modifies=["opt_v", "opt_f"],
+    fuel=5,
+    axioms=LREC_AXIOMS,
+    loops={
+        0: LoopSpec("for xi_i in [s for s in xi_i_set if len(s) == v]", _l_inv_outer),
+        1: LoopSpec("for xi_i_prime in [s for s in xi_i_prime_set if len(s) == f]", _l_inv_inner),
+        2: LoopSpec("[... for c in xi_i]", lambda s, j, pre: [s.A(s.opt_v) == L.inter(pre.A(pre.opt_v), FalP(enumC(s.xi_i.t), j))]),
+        3: LoopSpec("[... for c in part]", lambda s, j, pre: [s.A(s.opt_v) == L.inter(pre.A(pre.opt_v), NfExcP(s.part.t, s.xi_i.t, j))]),
+        4: LoopSpec("[... for c in xi_i_prime]", lambda s, j, pre: [s.A(s.opt_f) == L.inter(pre.A(pre.opt_f), FalP(enumC(s.xi_i_prime.t), j))]),
+        5: LoopSpec("[... for c in part]", lambda s, j, pre: [s.A(s.opt_f) == L.inter(pre.A(pre.opt_f), NfExcP(s.part.t, s.xi_i_prime.t, j))]),
+    },
+    properties=["C04"],  # (also relevant to C07/C11; listed once because it is the slowest function: ~2 min)
+    note="refinement of the real recursion (exists/forall over minimum-cardinality sets) to LREC under the assumed contract of get_all_xi_i",
 )
 
 
